@@ -88,7 +88,7 @@ func quota(v, scale float64) float64 {
 	return v * scale
 }
 
-var gaugeFamily = "kai_queue_fair_share_gpu"
+var gaugeFamily = "queue_fair_share_gpu" // registered by metrics.init() with an empty namespace
 
 // evalTree runs the real proportion plugin and returns the observed fair share per queue.
 func evalTree(t *Tree, o horder) (Shares, error) {
@@ -165,7 +165,11 @@ func evalTree(t *Tree, o horder) (Shares, error) {
 		out[i][1] = fs.Cpu()
 		out[i][2] = fs.Memory()
 	}
-	g, err := gatherGauge(gaugeFamily)
+	names := make([]string, n)
+	for i := range names {
+		names[i] = string(tqid(i))
+	}
+	g, err := gatherGauge(gaugeFamily, names)
 	if err != nil {
 		return nil, err
 	}
@@ -189,27 +193,50 @@ func evalTree(t *Tree, o horder) (Shares, error) {
 	return out, nil
 }
 
-func gatherGauge(name string) (map[string]float64, error) {
-	mfs, err := prometheus.DefaultGatherer.Gather()
+// gpuGauge returns the real queue_fair_share_gpu GaugeVec of the scheduler's metrics package. It is
+// unexported there; registering a vector with the identical descriptor makes the default registry
+// hand back the existing collector.
+var gpuGaugeVec *prometheus.GaugeVec
+
+func gpuGauge() (*prometheus.GaugeVec, error) {
+	if gpuGaugeVec != nil {
+		return gpuGaugeVec, nil
+	}
+	probe := prometheus.NewGaugeVec(prometheus.GaugeOpts{Name: gaugeFamily,
+		Help: "GPU Fair share of queue, as a gauge. Values in GPU devices"}, []string{"queue_name"})
+	err := prometheus.DefaultRegisterer.Register(probe)
+	if are, ok := err.(prometheus.AlreadyRegisteredError); ok {
+		if gv, ok := are.ExistingCollector.(*prometheus.GaugeVec); ok {
+			gpuGaugeVec = gv
+			return gv, nil
+		}
+	}
+	if err == nil {
+		prometheus.DefaultRegisterer.Unregister(probe)
+	}
+	return nil, fmt.Errorf("cannot reach the scheduler's %s gauge (register returned %v)", gaugeFamily, err)
+}
+
+// newMetric allocates a client_model Metric without importing that module directly (it is only an
+// indirect requirement of the harness module; naming it would make the go tool rewrite go.mod).
+func newOf[T any](_ func(*T) error) *T { return new(T) }
+
+func gatherGauge(name string, queues []string) (map[string]float64, error) {
+	gv, err := gpuGauge()
 	if err != nil {
 		return nil, err
 	}
 	out := map[string]float64{}
-	found := -1
-	for i, mf := range mfs {
-		if mf.GetName() == name {
-			found = i
+	for _, q := range queues {
+		g, err := gv.GetMetricWithLabelValues(q)
+		if err != nil {
+			return nil, err
 		}
-	}
-	if found < 0 {
-		return nil, fmt.Errorf("metric family %s not found", name)
-	}
-	for _, m := range mfs[found].Metric {
-		for _, l := range m.Label {
-			if l.GetName() == "queue_name" {
-				out[l.GetValue()] = m.GetGauge().GetValue()
-			}
+		m := newOf(g.Write)
+		if err := g.Write(m); err != nil {
+			return nil, err
 		}
+		out[q] = m.GetGauge().GetValue()
 	}
 	return out, nil
 }
